@@ -192,7 +192,15 @@ def make_array(kind, L, rng, x):
 def run_case(ctx, case):
     rng = np.random.default_rng(case['aseed'])
     L0, sp = int(case['L']), float(case['sp'])
-    d = Domain(length=L0, dr=sp) if case['ctor'] == 'dr' else Domain(length=L0, dk=sp)
+    if case['aseed'] % 4 == 1:
+        # positional arguments, in the documented order (length, dr, dk)
+        d = Domain(L0, sp) if case['ctor'] == 'dr' else Domain(L0, None, sp)
+        ctx.hook('positional_constructor')
+    else:
+        d = Domain(length=L0, dr=sp) if case['ctor'] == 'dr' else Domain(length=L0, dk=sp)
+    got_sp = d.dr if case['ctor'] == 'dr' else d.dk
+    if d.length != L0 or not abs(got_sp - sp) <= 4 * EPS * sp:
+        ctx.violation('constructor-ignores-arguments', 'Domain constructed with length=%d and %s=%r has length=%r and %s=%r' % (L0, case['ctor'], sp, d.length, case['ctor'], got_sp))
     if case['aseed'] % 3 == 0 and len(d.r) == L0 and len(d.k) == L0 and L0 <= 1024:
         # the Domain has already been USED (array and MatrixArray transforms) before it is re-configured
         m0 = MatrixArray(length=L0, rank=2, data=np.ones((L0, 2, 2)), space=Space.Real, types=['A', 'B'])
@@ -273,15 +281,17 @@ def run_case(ctx, case):
                 if bad.space != Space.Real or not np.array_equal(bad.data, np.ones((L - 1, rank, rank))):
                     ctx.violation('ma-failed-transform-changed-array', 'a transform attempt that raised left the MatrixArray with flag %s / modified data' % bad.space)
         # stacked 2-D input: every row is transformed like a 1-D array
-        stack = rng.normal(size=(3, L))
-        for nm, T in (('to_fourier', d.to_fourier), ('to_real', d.to_real)):
-            try:
-                got2 = np.asarray(T(np.array(stack)))
-            except Exception:   # noqa - 2-D input is not documented; only a silent wrong answer is judged
-                continue
-            want2 = np.array([T(np.array(row)) for row in stack])
-            if got2.shape == want2.shape and not np.allclose(got2, want2, rtol=1e-10, atol=1e-12 * np.abs(want2).max()):
-                ctx.violation('stacked-input-differs-from-rows', '%s of a (3,%d) array differs from transforming its rows one by one' % (nm, L))
+        for nrows in (3, L if L <= 256 else 1, L + 1 if L <= 64 else 2):        # incl. as many rows as grid points (a square stack)
+            stack = rng.normal(size=(nrows, L))
+            for nm, T in (('to_fourier', d.to_fourier), ('to_real', d.to_real)):
+                try:
+                    got2 = np.asarray(T(np.array(stack)))
+                except Exception:   # noqa - 2-D input is not documented; only a silent wrong answer is judged
+                    continue
+                ctx.hook('stacked_rows')
+                want2 = np.array([T(np.array(row)) for row in stack])
+                if got2.shape == want2.shape and not np.allclose(got2, want2, rtol=1e-10, atol=1e-12 * np.abs(want2).max()):
+                    ctx.violation('stacked-input-differs-from-rows', '%s of a (%d,%d) array differs from transforming its rows one by one' % (nm, nrows, L))
         spaces3 = ((Space.Real, d.MatrixArray_to_fourier, d.MatrixArray_to_real, d.to_fourier),
                    (Space.Fourier, d.MatrixArray_to_real, d.MatrixArray_to_fourier, d.to_real))
         if case['aseed'] % 5 == 0:
